@@ -39,7 +39,7 @@ Definition REC_ATOM : str := [65;84;79;77;32;32].
 Definition REC_HETATM : str := [72;69;84;65;84;77].
 
 (* the pieces of the line, in order; xyz / occ / b are the numeric texts (24, 6, 6 bytes) *)
-Definition atom_pieces (t : atext) (xyz occ b : str) : list str :=
+Definition atom_head (t : atext) (xyz occ b : str) : list str :=
   [ (if t_het t then REC_HETATM else REC_ATOM);
     field5 (encode_serial (t_serial t));
     [32];
@@ -52,8 +52,10 @@ Definition atom_pieces (t : atext) (xyz occ b : str) : list str :=
     xyz; occ; b;
     [32; 32; 32; 32; 32; 32];
     ljust_trunc 4 (t_segment t);
-    rjust 2 (t_el t);
-    [fst (write_charge (t_charge t)); snd (write_charge (t_charge t))] ].
+    rjust 2 (t_el t) ].
+(* columns 1-78, then the two charge columns *)
+Definition atom_pieces (t : atext) (xyz occ b : str) : list str :=
+  atom_head t xyz occ b ++ [[fst (write_charge (t_charge t)); snd (write_charge (t_charge t))]].
 
 Definition atom_line (t : atext) (xyz occ b : str) : str := concat (atom_pieces t xyz occ b).
 
